@@ -4,7 +4,7 @@ from spec import enc
 from spec import elf_layout as L
 from spec import registry as REG
 from harness.c03 import hash_word_size
-from harness.elfkit import Image, machines_of_interest
+from harness.elfkit import Image, machines_of_interest, open_elf
 
 PROPERTY = 'C09'
 ASSUMPTIONS = [
@@ -204,7 +204,7 @@ def h_dynamic(ctx):
     cfg = ctx.cfg
     EF = ctx.lib('elf.elffile')
     data, exp = _template(ctx, cfg)
-    elf = EF.ELFFile(ctx.stream(data))
+    elf = open_elf(ctx, data)
     seg = [s for s in elf.iter_segments() if type(s).__name__ == 'DynamicSegment']
     ctx.outcome('ok')
     ctx.check_eq('dynamic/segment-found', len(seg), 1)
